@@ -278,6 +278,12 @@ func RunC10(tier, replay string) int {
 		}
 		orig, flat, err := c.EmbeddedSpecs(s)
 		if err != nil {
+			if strings.Contains(err.Error(), "embedded spec:") {
+				// the compiled server cannot even load the documents embedded in it
+				viol("embedded documents", "the generated server cannot load its embedded documents (loads.Embedded fails): "+trunc(err.Error(), 200), nil)
+				r.CaseKeyed(key, sample, true, "embedded-unloadable")
+				return
+			}
 			r.HarnessError("%s: %v", d.Name, err)
 			return
 		}
